@@ -50,7 +50,7 @@ def _typename(ctx, args, kw):
         c = ctx.cell(v)
         if isinstance(c, HObj):
             return c.cls.name
-        return {"list": "list", "dict": "dict", "set": "set", "exc": "Exception", "gen": "generator"}[c.kind]
+        return {"list": "list", "dict": "dict", "set": "set", "exc": "Exception", "gen": "generator", "genfn": "generator"}[c.kind]
     if isinstance(v, Sym):
         return {"int": "int", "real": "float", "bool": "bool", "str": "str"}[v.k]
     if v is None:
